@@ -49,7 +49,9 @@ def check_one(item):
     bypass = {}
     ctxp = run.params.get("ctx")
     eff = effective_ctx(ex, ci, ctxp) if ctxp is not None else None
-    term_like = ex.tags.sub(r.cls("terms.Term"))
+    # every package class that renders itself through get_sql (terms, selectables, Interval, ...)
+    term_like = frozenset(c.short for c in r.classes.values()
+                          if c.resolve("get_sql") and c.resolve("get_sql")[0] == "func")
     for o in run.outcomes:
         if o.status == "raise":
             continue
@@ -59,7 +61,9 @@ def check_one(item):
             if ef.method == "__str__":
                 rk = recv_key(ex, ef, o.state)
                 tags = ef.recv_tags
-                if (tags is None or tags & term_like) and ex.smt.feasible(pcg):
+                # opaque user values (slot type `value`) are plain data by the class invariant (C04 param/plain-data)
+                if getattr(ef.recv, "label", "") != "value" and (tags is None or tags & term_like) and \
+                        ex.smt.feasible(pcg):
                     bypass[rk] = f"str() of {rk} renders it under its own default context, not under ctx"
                 continue
             if ef.method not in ("get_sql", "get_formatted_value", "_recursive_get_sql"):
